@@ -197,6 +197,12 @@ def call(op, objs, args, entry="method"):
         return (via(op),)
     if op == "clip":
         return (via("clip", a["a_min"], a["a_max"]),)
+    if op == "norm_sq":
+        if entry == "method":
+            return (x.norm() ** 2,)
+        if entry == "symmray":
+            return (sr.linalg.norm(x) ** 2,)
+        return (ar.do("linalg.norm", x) ** 2,)
     if op == "norm":
         if entry == "method":
             return (x.norm(),)
@@ -261,6 +267,21 @@ def call(op, objs, args, entry="method"):
     raise ValueError(f"unknown op {op}")
 
 
+def bits_equal(a, b):
+    """Observation: are two results bit-for-bit the same numbers?"""
+    import symmray as sr
+
+    if isinstance(a, (sr.AbelianArray, sr.BlockVector)) and isinstance(b, (sr.AbelianArray, sr.BlockVector)):
+        if list(a.blocks) != list(b.blocks):
+            return False
+        return all(np.array_equal(np.asarray(a.blocks[k]), np.asarray(b.blocks[k]), equal_nan=True)
+                   and np.asarray(a.blocks[k]).dtype == np.asarray(b.blocks[k]).dtype for k in a.blocks)
+    try:
+        return bool(np.array_equal(np.asarray(a), np.asarray(b), equal_nan=True))
+    except Exception:
+        return False
+
+
 class Session:
     """One program being executed: registers, buffered events."""
 
@@ -286,9 +307,15 @@ class Session:
         if self.dead:
             return "dead"
         regs = self.regs
+        args = dict(st.get("args", {}))
+        if st["op"] == "rel" and args.get("how") == "all_or_none":
+            args["present"] = [r in regs for r in args["names"]]
+            self._emit("rel", args, [], [], "method", "ok", "")
+            return "ok"
         if any(r not in regs for r in st["in"]):
             return "skip"  # an earlier call raised: its dependants are not run
-        args = dict(st.get("args", {}))
+        if st["op"] == "rel" and args.get("how") == "bits":
+            args["bits_equal"] = bits_equal(regs[st["in"][0]], regs[st["in"][1]])
         try:
             if st["op"] == "rel":
                 # relational pseudo-event: nothing is executed, the spec compares registers
